@@ -164,20 +164,13 @@ Section LEAF.
   Qed.
 
   Lemma str_checks_nopanic c s :
-    g_pattern_here re_compiles c = true ->
     forallb chk_nopanic (str_checks re_compiles re_match fmt_ok st c s) = true.
   Proof.
-    unfold g_pattern_here, str_checks, fmt_chk. intros Hp. cbn [forallb].
-    destruct (String.eqb (c_pattern c) ""); cbn [orb] in Hp.
-    - repeat match goal with
-      | |- context [if ?b then _ else _] => destruct b
-      | |- context [match ?o with Some _ => _ | None => _ end] => destruct o
-      end; reflexivity.
-    - rewrite Hp. cbn [negb].
-      repeat match goal with
-      | |- context [if ?b then _ else _] => destruct b
-      | |- context [match ?o with Some _ => _ | None => _ end] => destruct o
-      end; reflexivity.
+    unfold str_checks, fmt_chk. cbn [forallb].
+    repeat match goal with
+    | |- context [if ?b then _ else _] => destruct b
+    | |- context [match ?o with Some _ => _ | None => _ end] => destruct o
+    end; reflexivity.
   Qed.
 End LEAF.
 
